@@ -55,19 +55,28 @@ def run_one(s):
             r = do.rot(torch.cat(comps, dim=1), *vars_)
         else:
             raise ValueError(op)
-        r = r.detach().reshape(n, -1)
+        return r.detach().reshape(n, -1)          # (a view of the operator's result: read later, see below)
+
+    def ints(r):
         out = []
         for row in r.tolist():
             out.append([int(round(v)) if abs(v - round(v)) < 1e-3 and abs(v) < 2 ** 30 else 2 ** 30 for v in row])
         return out
-    rr = watched(lambda: evaluate(rows))
+
+    def two_calls():
+        # the result of the first call is READ only after a second call of the same operator with inputs of the same shape
+        # (results must not share storage): "batch" = first result read late, "batch2" = second result, rows put back in order
+        t1 = evaluate(rows)
+        t2 = evaluate(list(reversed(rows)))
+        return ints(t1), list(reversed(ints(t2)))
+    rr = watched(two_calls)
     if rr[0] != "ok":
         res["exc"] = rr[1] if len(rr) > 1 else "hang"
         res["msg"] = rr[2][:160] if len(rr) > 2 else ""
         return res
-    res["batch"] = rr[1]
+    res["batch"], res["batch2"] = rr[1]
     for rw in rows:
-        r1 = watched(lambda: evaluate([rw]))
+        r1 = watched(lambda: ints(evaluate([rw])))
         res["single"].append(r1[1][0] if r1[0] == "ok" else [])
     return res
 
